@@ -31,8 +31,8 @@ OPEN_STATEMENTS = [
     'restrict_is_projection: the index part is proved at the matrix level for the particle number '
     '(number_indices_matrix_sector: the listed matrix indices are exactly the eigenvalue-k basis states, through the bit '
     'reversal); that numpy.ix_ extracts those rows / columns in list order is the indexing contract (restrict stream)',
-    'iterate_basis_spec with spin_preserving=True (the alpha / beta split): not proved; the unrestricted enumeration is '
-    '(iterate_basis_spec_nospin) and the reference comes first for both flags',
+    'iterate_basis_spec is proved for both flags (iterate_basis_spec_nospin, iterate_basis_spec_spin; the spin version is stated '
+    'through vacated / filled alpha and beta orbitals, not through countTrue of the even / odd sublists)',
     'number_preserving matrix = compression of the operator to the determinant basis and totality (no exception on admissible '
     'input): only the sign / target loop (build_term_op_sound) is proved; the lookup (argsort / searchsorted) is covered by the '
     'number-preserving stream',
